@@ -38,18 +38,22 @@ Section Guard.
 
   Let R := d_removed old new.
   Let RN := d_renamed old new.
+  Let RNm := moves_of RN.          (* renamed on the remote *)
+  Let RNr := recs_of RN.           (* kind / symlink target changed too: removed and re-created *)
   Let KC := d_kind_changed old new.
-  Let AD := d_added old new.
+  Let AD := d_created old new.     (* added + re-created, by new path *)
   Let MD := d_modified old new.
 
-  Definition g_prs : list (nat * change) := numbered 0 RN.
+  Definition g_prs : list (nat * change) := numbered 0 RNm.
   Definition g_rmp : list path := map epath R.
   Definition g_rmd : list path := dir_paths R.
+  Definition g_rcp : list path := map (fun c => epath (c_old c)) RNr.
+  Definition g_gone : list path := g_rmp ++ g_rcp.
   Definition g_oldpaths : list path := map epath (ents old).
   Definition g_newpaths : list path := map epath (ents new).
 
   (* closed forms of the remote after each phase, from the old tree *)
-  Definition F1 (p : path) : option node := if mem p g_rmp then None else tlook old p.
+  Definition F1 (p : path) : option node := if mem p g_gone then None else tlook old p.
   Definition F3 : path -> option node := ren_formP g_prs F1.
   Definition F5 : path -> option node := upd_all (map kc_item KC) F3.
   Definition F6 : path -> option node := upd_all (map add_item AD) F5.
@@ -78,58 +82,56 @@ Section Guard.
   Definition g_removed : bool :=
     pf_okb g_rmp
     && forallb (fun e => onode_eqb (tlook old (epath e)) (Some (enode e))) R
-    (* whatever the old tree has below a removed directory is removed too or
-       is moved away by a rename *)
-    && forallb (fun d => forallb (fun q => negb (strictb d q) || ex_old g_prs q || mem q g_rmp)
+    (* whatever the old tree has below a removed directory is gone too or is
+       moved away by a rename *)
+    && forallb (fun d => forallb (fun q => negb (strictb d q) || ex_old g_prs q || mem q g_gone)
                                  g_oldpaths) g_rmd.
+
+  (* re-created entries are leaves of the old tree, apart from the renamed ones *)
+  Definition g_recreated : bool :=
+    nodupb g_rcp
+    && forallb (fun c =>
+         let p0 := epath (c_old c) in
+         onode_eqb (tlook old p0) (Some (enode (c_old c)))
+         && negb (mem p0 g_rmp)
+         && forallb (fun q => negb (strictb p0 q)) g_oldpaths
+         && forallb (fun c' => negb (prefixb p0 (epath (c_old c')))
+                               && negb (prefixb (epath (c_old c')) p0)) RNm) RNr.
 
   Definition g_renamed : bool :=
     forallb (fun c =>
       let p0 := epath (c_old c) in let p1 := epath (c_new c) in
       onode_eqb (tlook old p0) (Some (enode (c_old c)))
       && negb (mem p0 g_rmp)
-      (* the renamed entry keeps its kind; a symlink keeps its target; the
-         exec bit changes only together with the content *)
-      && kind_eqb (enode (c_old c)) (enode (c_new c))
-      && match enode (c_old c), enode (c_new c) with
-         | File c0 x0, File c1 x1 => negb (bytes_eqb c0 c1) || Bool.eqb x0 x1
-         | Link t0, Link t1 => name_eqb t0 t1
-         | _, _ => true
-         end
       (* upload_file(old path) needs the old directory *)
       && match put_of c with
          | Some _ => match parent p0 with
                      | [] => true
-                     | q => is_dirb (tlook old q) && negb (mem q g_rmp)
+                     | q => is_dirb (tlook old q) && negb (mem q g_gone)
                      end
          | None => true
          end
-      (* no deferred directory deletion below the old path, around the new path *)
-      && forallb (fun d => negb (prefixb p0 d) && negb (prefixb p1 d) && negb (prefixb d p1)) g_rmd
-      (* the new path is free once everything is staged *)
-      && forallb (fun q => negb (prefixb p1 q) || ex_old g_prs q || mem q g_rmp) g_oldpaths
+      (* no deferred directory deletion below the old path *)
+      && forallb (fun d => negb (prefixb p0 d)) g_rmd
+      (* the new path is free once everything is staged and deleted *)
+      && forallb (fun q => negb (prefixb p1 q) || ex_old g_prs q || mem q g_gone) g_oldpaths
       (* the directory of the new path exists and stays where it is *)
       && match parent p1 with
          | [] => true
-         | q => is_dirb (tlook old q) && negb (mem q g_rmp) && negb (ex_old g_prs q)
-         end) RN
+         | q => is_dirb (tlook old q) && negb (mem q g_gone) && negb (ex_old g_prs q)
+         end) RNm
     (* no renamed entry below another renamed entry; no two new paths nested *)
-    && antib (map (fun c => epath (c_old c)) RN)
-    && antib (map (fun c => epath (c_new c)) RN).
+    && antib (map (fun c => epath (c_old c)) RNm)
+    && antib (map (fun c => epath (c_new c)) RNm).
 
   Definition g_kind_changed : bool :=
     nodupb (map (fun c => epath (c_new c)) KC)
     && forallb (fun c =>
          let p := epath (c_new c) in
-         path_eqb (epath (c_old c)) p
-         && onode_eqb (F3 p) (Some (enode (c_old c)))
+         onode_eqb (F3 p) (Some (enode (c_old c)))
          && par_okb F3 p
          && match enode (c_old c) with
             | Dir => forallb (fun q => negb (strictb p q) || isNone (F3 q)) g_univ
-            | _ => true
-            end
-         && match enode (c_new c) with
-            | Link _ => match parent p with [] => true | _ => false end
             | _ => true
             end) KC.
 
@@ -139,17 +141,16 @@ Section Guard.
          let p := epath e in
          isNone (F5 p)
          && (par_okb F5 p
-             || existsb (fun e' => path_eqb (epath e') (parent p) && is_dir_entry e') AD)
-         && match enode e with
-            | Link _ => match parent p with [] => true | _ => false end
-            | _ => true
-            end) AD.
+             || existsb (fun e' => path_eqb (epath e') (parent p) && is_dir_entry e') AD)) AD.
+
+  Definition non_dirb (o : option node) : bool :=
+    match o with Some Dir | None => false | Some _ => true end.
 
   Definition g_modified : bool :=
     nodupb (map (fun c => epath (c_new c)) MD)
     && forallb (fun c =>
          let p := epath (c_new c) in
-         is_fileb (Some (enode (c_new c))) && is_fileb (F6 p) && par_okb F6 p) MD.
+         non_dirb (Some (enode (c_new c))) && non_dirb (F6 p) && par_okb F6 p) MD.
 
   (* the declarative result IS the new tree *)
   Definition g_result : bool :=
@@ -157,7 +158,7 @@ Section Guard.
 
   Definition upload_guard : bool :=
     match tign new with [] => true | _ => false end
-    && g_clean && g_members && g_removed && g_renamed
+    && g_clean && g_members && g_removed && g_recreated && g_renamed
     && g_kind_changed && g_added && g_modified && g_result.
 End Guard.
 
@@ -253,17 +254,22 @@ Section Exact.
 
   Let R := d_removed old new.
   Let RN := d_renamed old new.
+  Let RNm := moves_of RN.
+  Let RNr := recs_of RN.
   Let KC := d_kind_changed old new.
-  Let AD := d_added old new.
+  Let AD := d_created old new.
   Let MD := d_modified old new.
   Let prs := g_prs old new.
   Let rmp := g_rmp old new.
   Let rmd := g_rmd old new.
+  Let rcp := g_rcp old new.
+  Let gone := g_gone old new.
 
   Lemma G_parts :
     tign new = [] /\ g_clean old new = true /\ g_members old new = true /\
     g_removed old new = true /\ g_renamed old new = true /\ g_kind_changed old new = true /\
-    g_added old new = true /\ g_modified old new = true /\ g_result old new = true.
+    g_added old new = true /\ g_modified old new = true /\ g_result old new = true /\
+    g_recreated old new = true.
   Proof.
     unfold upload_guard in G.
     repeat (apply andb_true_iff in G as [G ?]).
@@ -319,11 +325,17 @@ Section Exact.
   Lemma rmd_rmp p : In p rmd -> In p rmp.
   Proof. apply dir_paths_incl. Qed.
 
-  Lemma prs_In kc : In kc prs -> In (snd kc) RN.
+  Lemma prs_In kc : In kc prs -> In (snd kc) RNm.
   Proof. apply numbered_In. Qed.
+  Lemma RNm_RN c : In c RNm -> In c RN /\ recreate c = false.
+  Proof.
+    intros I. apply filter_In in I as [I H]. split; [exact I|]. apply negb_true_iff; exact H.
+  Qed.
+  Lemma RNr_RN c : In c RNr -> In c RN /\ recreate c = true.
+  Proof. intros I. apply filter_In in I. exact I. Qed.
   Lemma prs_clean kc : In kc prs -> clean_hd (oldp kc) = true /\ clean_hd (newp kc) = true.
   Proof.
-    intros I. apply prs_In in I. destruct M_parts as (_ & M & _). destruct (M _ I) as [A B].
+    intros I. apply prs_In, RNm_RN in I as [I _]. destruct M_parts as (_ & M & _). destruct (M _ I) as [A B].
     split; [apply old_clean; exact A|apply new_clean; exact B].
   Qed.
   Lemma prs_keys : NoDup (map fst prs).
@@ -333,43 +345,38 @@ Section Exact.
   Record rn_ok (c : change) : Prop := {
     rn_old : tlook old (epath (c_old c)) = Some (enode (c_old c));
     rn_nrm : ~ In (epath (c_old c)) rmp;
-    rn_kind : kind_eqb (enode (c_old c)) (enode (c_new c)) = true;
     rn_put : put_of c <> None ->
              match parent (epath (c_old c)) with
              | [] => True
-             | q => tlook old q = Some Dir /\ ~ In q rmp
+             | q => tlook old q = Some Dir /\ ~ In q gone
              end;
-    rn_rmd : forall d, In d rmd -> prefixb (epath (c_old c)) d = false /\
-                                   prefixb (epath (c_new c)) d = false /\
-                                   prefixb d (epath (c_new c)) = false;
+    rn_rmd : forall d, In d rmd -> prefixb (epath (c_old c)) d = false;
     rn_free : forall q, In q (g_oldpaths old) -> prefixb (epath (c_new c)) q = true ->
-                        ex_old prs q = true \/ In q rmp;
+                        ex_old prs q = true \/ In q gone;
     rn_par : match parent (epath (c_new c)) with
              | [] => True
-             | q => tlook old q = Some Dir /\ ~ In q rmp /\ ex_old prs q = false
+             | q => tlook old q = Some Dir /\ ~ In q gone /\ ex_old prs q = false
              end
   }.
 
   Lemma is_dirb_Some o : is_dirb o = true -> o = Some Dir.
   Proof. destruct o as [[]|]; simpl; congruence. Qed.
 
-  Lemma RN_ok c : In c RN -> rn_ok c.
+  Lemma RN_ok c : In c RNm -> rn_ok c.
   Proof.
-    intros I. destruct G_parts as (_ & _ & _ & _ & GR & _). unfold g_renamed in GR.
+    intros Ic. destruct G_parts as (_ & _ & _ & _ & GR & _). unfold g_renamed in GR.
     apply andb_true_iff in GR as [GR _]. apply andb_true_iff in GR as [GR _].
-    rewrite forallb_forall in GR. specialize (GR c I). cbv zeta in GR.
+    rewrite forallb_forall in GR. specialize (GR c Ic). cbv zeta in GR.
     repeat (apply andb_true_iff in GR as [GR ?]).
     constructor.
     - apply onode_eqb_eq; exact GR.
-    - apply mem_false. apply negb_true_iff. exact H5.
-    - exact H4.
+    - apply mem_false. apply negb_true_iff. exact H3.
     - intros NP. destruct (put_of c); [|congruence].
       destruct (parent (epath (c_old c))); [trivial|].
       apply andb_true_iff in H2 as [A B]. split; [apply is_dirb_Some; exact A|].
       apply mem_false. apply negb_true_iff. exact B.
     - intros d Id. rewrite forallb_forall in H1. specialize (H1 d Id).
-      apply andb_true_iff in H1 as [H1 C]. apply andb_true_iff in H1 as [A B].
-      repeat split; apply negb_true_iff; assumption.
+      apply negb_true_iff; assumption.
     - intros q Iq Pq. rewrite forallb_forall in H0. specialize (H0 q Iq).
       rewrite Pq in H0. simpl in H0. apply orb_true_iff in H0 as [A|A]; [left; exact A|].
       right. apply mem_true; exact A.
@@ -381,11 +388,61 @@ Section Exact.
   Qed.
 
   Lemma RN_anti :
-    anti (map (fun c => epath (c_old c)) RN) /\ anti (map (fun c => epath (c_new c)) RN).
+    anti (map (fun c => epath (c_old c)) RNm) /\ anti (map (fun c => epath (c_new c)) RNm).
   Proof.
     destruct G_parts as (_ & _ & _ & _ & GR & _). unfold g_renamed in GR.
     apply andb_true_iff in GR as [GR B]. apply andb_true_iff in GR as [_ A].
     split; apply antib_anti; assumption.
+  Qed.
+
+  (* a renamed (not re-created) entry keeps its kind; it is uploaded again only if it is a file *)
+  Lemma put_not_dir c : recreate c = false -> put_of c <> None -> enode (c_old c) <> Dir.
+  Proof.
+    unfold recreate, put_of, reupload. intros RC NP ED. apply NP. rewrite ED in *.
+    destruct (enode (c_new c)); simpl in *; try discriminate; reflexivity.
+  Qed.
+
+  (* ----- facts about one re-created entry ----- *)
+  Record rc_ok (c : change) : Prop := {
+    rc_old : tlook old (epath (c_old c)) = Some (enode (c_old c));
+    rc_nrm : ~ In (epath (c_old c)) rmp;
+    rc_leaf : forall q, In q (g_oldpaths old) -> strictb (epath (c_old c)) q = false;
+    rc_inc : forall c', In c' RNm -> incomp (epath (c_old c)) (epath (c_old c'))
+  }.
+
+  Lemma RC_parts : NoDup rcp /\ forall c, In c RNr -> rc_ok c.
+  Proof.
+    destruct G_parts as (_ & _ & _ & _ & _ & _ & _ & _ & _ & GC). unfold g_recreated in GC.
+    apply andb_true_iff in GC as [GC1 GC2]. split; [apply nodupb_NoDup; exact GC1|].
+    intros c Ic. rewrite forallb_forall in GC2. specialize (GC2 c Ic). cbv zeta in GC2.
+    repeat (apply andb_true_iff in GC2 as [GC2 ?]).
+    constructor.
+    - apply onode_eqb_eq; exact GC2.
+    - apply mem_false. apply negb_true_iff. exact H1.
+    - intros q Iq. rewrite forallb_forall in H0. apply negb_true_iff. apply H0; exact Iq.
+    - intros c' Ic'. rewrite forallb_forall in H. specialize (H c' Ic').
+      apply andb_true_iff in H as [A B]. split; apply negb_true_iff; assumption.
+  Qed.
+
+  Lemma rcp_In p : In p rcp -> exists c, In c RNr /\ p = epath (c_old c).
+  Proof. intros I. apply in_map_iff in I as (c & <- & I). eauto. Qed.
+
+  Lemma rcp_clean p : In p rcp -> clean_hd p = true.
+  Proof.
+    intros I. apply rcp_In in I as (c & Ic & ->). apply tlook_old_clean.
+    destruct RC_parts as [_ RC]. rewrite (rc_old _ (RC c Ic)). discriminate.
+  Qed.
+
+  Lemma gone_split p : In p gone <-> In p rmp \/ In p rcp.
+  Proof. unfold gone, g_gone. apply in_app_iff. Qed.
+
+  (* nothing of the old tree is below (or at, unless it is that entry) a re-created old path *)
+  Lemma rc_prefix_old p q : In p rcp -> prefixb p q = true -> tlook old q <> None -> q = p.
+  Proof.
+    intros I P T. apply rcp_In in I as (c & Ic & ->). destruct RC_parts as [_ RC].
+    apply prefixb_true in P as (s & ->). destruct s as [|x s]; [apply app_nil_r|].
+    exfalso. pose proof (rc_leaf _ (RC c Ic) _ (tlook_In _ _ T)) as L.
+    rewrite (proj2 (strictb_true _ _)) in L by eauto. discriminate.
   Qed.
 
   (* ----- phase 1 ----- *)
@@ -393,7 +450,7 @@ Section Exact.
     pf_okb rmp = true /\
     (forall e, In e R -> tlook old (epath e) = Some (enode e)) /\
     (forall d q, In d rmd -> In q (g_oldpaths old) -> strictb d q = true ->
-                 ex_old prs q = true \/ In q rmp).
+                 ex_old prs q = true \/ In q gone).
   Proof.
     destruct G_parts as (_ & _ & _ & GR & _). unfold g_removed in GR.
     apply andb_true_iff in GR as [GR C]. apply andb_true_iff in GR as [A B].
@@ -420,6 +477,12 @@ Section Exact.
     - exists u1. simpl in *. auto.
   Qed.
 
+  Lemma F1_old q : F1 old new q <> None -> In q (g_oldpaths old).
+  Proof. unfold F1. destruct (mem _ _); [congruence|apply tlook_In]. Qed.
+
+  Lemma clean_tmp_hd p : clean_hd p = true -> tmp_hd p = false.
+  Proof. destruct p as [|[] p]; simpl; congruence. Qed.
+
   (* ----- after phase 1 ----- *)
   Section After1.
     Variable u1 : ust.
@@ -431,9 +494,11 @@ Section Exact.
     Lemma pdel_rmd d : In d (pdel u1) -> In d rmd.
     Proof. apply (p1_incl _ _ _ P1). Qed.
 
-    Lemma L1 p : ~ In p (pdel u1) -> p <> [NMark] -> look1 p = F1 old new p.
+    (* the remote after the removals, deferred directories aside *)
+    Lemma L1 p : ~ In p (pdel u1) -> p <> [NMark] ->
+                 look1 p = if mem p rmp then None else tlook old p.
     Proof.
-      intros NP NM. unfold F1. fold rmp. destruct (mem p rmp) eqn:E.
+      intros NP NM. destruct (mem p rmp) eqn:E.
       - apply mem_true in E. destruct (p1_done _ _ _ P1 p E) as [[A _]|[_ B]]; [exact A|contradiction].
       - apply mem_false in E. unfold look1. rewrite (p1_same _ _ _ P1 p E). apply AG; exact NM.
     Qed.
@@ -454,43 +519,56 @@ Section Exact.
       intros C I. apply pdel_rmd, rmd_rmp, rmp_clean in I. congruence.
     Qed.
 
+    Lemma L1_keep p : ~ In p rmp -> clean_hd p = true -> look1 p = tlook old p.
+    Proof.
+      intros NI C. rewrite L1.
+      - rewrite (proj2 (mem_false _ _) NI). reflexivity.
+      - intros Ip. apply NI. apply rmd_rmp, pdel_rmd; exact Ip.
+      - apply clean_ne_mark; exact C.
+    Qed.
+
     Lemma TF1 k s : look1 (Tmp k :: s) = None.
     Proof.
       rewrite L1.
-      - unfold F1. destruct (mem _ _); [reflexivity|apply tlook_old_tmp].
+      - destruct (mem _ _); [reflexivity|apply tlook_old_tmp].
       - apply not_pdel_clean; reflexivity.
       - discriminate.
     Qed.
 
-    Lemma F1_old q : F1 old new q <> None -> In q (g_oldpaths old).
-    Proof. unfold F1. destruct (mem _ _); [congruence|apply tlook_In]. Qed.
+    (* nothing on the remote below a re-created old path *)
+    Lemma rc_leaf1 p x s : In p rcp -> look1 (p ++ x :: s) = None.
+    Proof.
+      intros I. pose proof (rcp_clean _ I) as C.
+      assert (clean_hd (p ++ x :: s) = true) as CQ by (destruct p as [|[] r]; simpl in *; congruence).
+      assert (tlook old (p ++ x :: s) = None) as TN.
+      { destruct (tlook old (p ++ x :: s)) eqn:T; [|reflexivity]. exfalso.
+        assert (p ++ x :: s = p) as E by (apply rc_prefix_old; [exact I|apply prefixb_app|congruence]).
+        rewrite <- (app_nil_r p) in E at 2. apply app_inv_head in E. discriminate. }
+      destruct (in_dec (list_eq_dec (fun a b => reflect_dec _ _ (name_eqb_spec a b))) (p ++ x :: s) (pdel u1)) as [Ip|Np].
+      - exfalso. apply pdel_rmd, rmd_rmp in Ip. apply in_map_iff in Ip as (e & E & Ie).
+        destruct R_facts as (_ & HL & _). rewrite <- E, (HL e Ie) in TN. discriminate.
+      - rewrite L1 by (auto using clean_ne_mark). destruct (mem _ _); [reflexivity|exact TN].
+    Qed.
 
-    Lemma clean_tmp_hd p : clean_hd p = true -> tmp_hd p = false.
-    Proof. destruct p as [|[] p]; simpl; congruence. Qed.
-
-    (* -- staging -- *)
+    (* -- the rename loop: staging moves and leaf deletions -- *)
     Lemma stage_pre : moves_pre (map stageP prs) (ufs u1).
     Proof.
       destruct RN_anti as [AA AB].
       constructor.
       - intros m I. apply in_map_iff in I as (kc & <- & I).
         pose proof (RN_ok _ (prs_In _ I)) as OK. destruct (prs_clean _ I) as [CO CN].
+        destruct (RNm_RN _ (prs_In _ I)) as [_ NR].
         simpl. unfold oldp in *. exists (enode (c_old (snd kc))). split.
         + change (look1 (epath (c_old (snd kc))) = Some (enode (c_old (snd kc)))).
-          rewrite L1.
-          * unfold F1. fold rmp. rewrite (proj2 (mem_false _ _) (rn_nrm _ OK)). apply (rn_old _ OK).
-          * intros Ip. apply (rn_nrm _ OK). apply rmd_rmp, pdel_rmd; exact Ip.
-          * apply clean_ne_mark; exact CO.
-        + intros NP. split.
-          * intros ED. apply NP. unfold put_of. pose proof (rn_kind _ OK) as K. rewrite ED in *.
-            destruct (enode (c_new (snd kc))); simpl in K; try discriminate. reflexivity.
-          * pose proof (rn_put _ OK NP) as PP. unfold parent_ok.
-            destruct (parent (epath (c_old (snd kc)))) as [|y q] eqn:EP; [reflexivity|].
-            destruct PP as [PD PN]. change (is_dirb (look1 (y :: q)) = true).
-            rewrite L1.
-            -- unfold F1. fold rmp. rewrite (proj2 (mem_false _ _) PN), PD. reflexivity.
-            -- intros Ip. apply PN. apply rmd_rmp, pdel_rmd; exact Ip.
-            -- apply clean_ne_mark. apply tlook_old_clean. congruence.
+          rewrite L1_keep; [apply (rn_old _ OK)|apply (rn_nrm _ OK)|exact CO].
+        + intros NP. split; [apply put_not_dir; assumption|].
+          pose proof (rn_put _ OK NP) as PP. unfold parent_ok.
+          destruct (parent (epath (c_old (snd kc)))) as [|y q] eqn:EP; [reflexivity|].
+          destruct PP as [PD PN]. change (is_dirb (look1 (y :: q)) = true).
+          rewrite L1_keep.
+          * rewrite PD. reflexivity.
+          * intros Ip. apply PN. apply gone_split; left; exact Ip.
+          * apply tlook_old_clean. congruence.
       - rewrite map_map. simpl.
         replace (map (fun x => oldp x) prs) with (map (fun c => epath (c_old c)) (map snd prs))
           by (rewrite map_map; reflexivity).
@@ -506,116 +584,83 @@ Section Exact.
         destruct (prs_clean _ I') as [CO _]. destruct (oldp kc'); [discriminate|reflexivity].
     Qed.
 
-    (* -- finishing the renames -- *)
+    Lemma mixed_ok :
+      exists fS, run_items (mixed 0 RN) (ufs u1) = (fS, None) /\ dom_ok fS /\
+                 forall p, look fS p = moved (map stageP prs) (cut rcp look1) p.
+    Proof.
+      destruct RC_parts as [NDr RC].
+      destruct (mixed_simultaneous (mixed 0 RN) (ufs u1) (p1_dom _ _ _ P1)) as (fS & E & D & L).
+      - rewrite mvs_of_mixed. exact stage_pre.
+      - rewrite rms_of_mixed. exact NDr.
+      - intros a d I. rewrite mvs_of_mixed.
+        assert (exists c, In c RNr /\ a = epath (c_old c) /\ d = is_dir_node (enode (c_old c))) as (c & Ic & -> & ->).
+        { clear - I. unfold RNr, recs_of. generalize 0%nat as n. revert I. generalize 0%nat.
+          induction RN as [|c l IH]; intros n I m; simpl in *; [destruct I|].
+          destruct (recreate c) eqn:RCc; simpl in I.
+          - destruct I as [I|I].
+            + inversion I; subst. exists c. split; [left; reflexivity|auto].
+            + destruct (IH _ I m) as (c' & A & B). exists c'. split; [right; exact A|exact B].
+          - destruct I as [I|I]; [discriminate|]. apply (IH _ I m). }
+        pose proof (RC c Ic) as OK.
+        assert (clean_hd (epath (c_old c)) = true) as C
+          by (apply rcp_clean; apply in_map_iff; exists c; auto).
+        constructor.
+        + exists (enode (c_old c)). split.
+          * change (look1 (epath (c_old c)) = Some (enode (c_old c))).
+            rewrite L1_keep; [apply (rc_old _ OK)|apply (rc_nrm _ OK)|exact C].
+          * unfold is_dir_node. destruct (enode (c_old c)); split; congruence.
+        + intros x s. apply rc_leaf1. apply in_map_iff. exists c. auto.
+        + intros m I'. apply in_map_iff in I' as (kc & <- & Ik). simpl. split; [|split].
+          * apply (rc_inc _ OK). apply prs_In; exact Ik.
+          * split; [apply clean_not_under_tmp; exact C|apply tmp_not_under_clean; exact C].
+          * destruct (epath (c_old c)); [discriminate|reflexivity].
+      - exists fS. split; [exact E|]. split; [exact D|].
+        intros p. rewrite L, mvs_of_mixed, rms_of_mixed. reflexivity.
+    Qed.
+
+    (* -- the deferred deletions, then the final renames -- *)
     Section AfterStage.
       Variable fS : fs.
       Hypothesis DS : dom_ok fS.
-      Hypothesis LS : forall p, look fS p = moved (map stageP prs) look1 p.
+      Hypothesis LS : forall p, look fS p = moved (map stageP prs) (cut rcp look1) p.
 
-      Lemma LS_clean q : tmp_hd q = false -> look fS q = if ex_old prs q then None else look1 q.
+      Lemma LS_clean q : tmp_hd q = false ->
+        look fS q = if ex_old prs q then None else cut rcp look1 q.
       Proof.
         intros T. rewrite LS. unfold moved. rewrite find_tgt_stg_clean by exact T.
         rewrite ex_src_stg. reflexivity.
-      Qed.
-
-      Lemma fin_pre : moves_pre (map finP prs) fS.
-      Proof.
-        destruct RN_anti as [AA AB].
-        constructor.
-        - intros m I. apply in_map_iff in I as (kc & <- & I). simpl.
-          pose proof (RN_ok _ (prs_In _ I)) as OK. destruct (prs_clean _ I) as [CO CN].
-          assert (look1 (oldp kc) = Some (enode (c_old (snd kc)))) as LO.
-          { unfold oldp. rewrite L1.
-            - unfold F1. fold rmp. rewrite (proj2 (mem_false _ _) (rn_nrm _ OK)). apply (rn_old _ OK).
-            - intros Ip. apply (rn_nrm _ OK). apply rmd_rmp, pdel_rmd; exact Ip.
-            - apply clean_ne_mark; exact CO. }
-          assert (look fS [Tmp (fst kc)] <> None) as NN.
-          { rewrite LS. unfold moved. rewrite find_tgt_stg_tmp, (find_key _ _ prs_keys I).
-            unfold src. simpl. destruct (put_of (snd kc)) as [[t x]|]; [discriminate|].
-            rewrite app_nil_r, LO. discriminate. }
-          destruct (look fS [Tmp (fst kc)]) as [nd|]; [|congruence].
-          exists nd. split; [reflexivity|]. intros C; congruence.
-        - rewrite map_map. simpl. apply anti_tmp. apply prs_keys.
-        - rewrite map_map. simpl.
-          replace (map (fun x => newp x) prs) with (map (fun c => epath (c_new c)) (map snd prs))
-            by (rewrite map_map; reflexivity).
-          unfold prs, g_prs. rewrite numbered_snd. exact AB.
-        - intros m m' I I'. apply in_map_iff in I as (kc & <- & I). apply in_map_iff in I' as (kc' & <- & I').
-          simpl. destruct (prs_clean _ I') as [_ CN]. split.
-          + apply tmp_not_under_clean; exact CN.
-          + apply clean_not_under_tmp; exact CN.
-        - intros m s I. apply in_map_iff in I as (kc & <- & I). simpl.
-          pose proof (RN_ok _ (prs_In _ I)) as OK. destruct (prs_clean _ I) as [CO CN].
-          set (q := newp kc ++ s).
-          assert (clean_hd q = true) as CQ.
-          { unfold q. destruct (newp kc) as [|[] r]; simpl in *; congruence. }
-          rewrite LS_clean by (apply clean_tmp_hd; exact CQ).
-          destruct (ex_old prs q) eqn:EO; [reflexivity|].
-          assert (~ In q (pdel u1)) as NP.
-          { intros Ip. apply pdel_rmd in Ip. destruct (rn_rmd _ OK q Ip) as (_ & B & _).
-            unfold q, newp in B. rewrite prefixb_app in B. discriminate. }
-          rewrite L1 by (auto using clean_ne_mark).
-          destruct (F1 old new q) eqn:EF; [|reflexivity]. exfalso.
-          assert (In q (g_oldpaths old)) as IO by (apply F1_old; congruence).
-          destruct (rn_free _ OK q IO) as [A|A].
-          + unfold q, newp. apply prefixb_app.
-          + congruence.
-          + unfold F1 in EF. fold rmp in EF. rewrite (proj2 (mem_true _ _) A) in EF. discriminate.
-        - intros m I. apply in_map_iff in I as (kc & <- & I). simpl.
-          pose proof (RN_ok _ (prs_In _ I)) as OK. destruct (prs_clean _ I) as [CO CN].
-          split.
-          + pose proof (rn_par _ OK) as PP. unfold parent_ok, newp.
-            destruct (parent (epath (c_new (snd kc)))) as [|y q] eqn:EP; [reflexivity|].
-            destruct PP as (PD & PN & PE).
-            assert (clean_hd (y :: q) = true) as CQ by (apply tlook_old_clean; congruence).
-            rewrite LS_clean by (apply clean_tmp_hd; exact CQ). rewrite PE.
-            rewrite L1.
-            * unfold F1. fold rmp. rewrite (proj2 (mem_false _ _) PN), PD. reflexivity.
-            * intros Ip. apply PN. apply rmd_rmp, pdel_rmd; exact Ip.
-            * apply clean_ne_mark; exact CQ.
-          + intros m' I'. apply in_map_iff in I' as (kc' & <- & I'). simpl.
-            destruct (clean_parent _ CN) as [E|C].
-            * rewrite E. reflexivity.
-            * apply tmp_not_under_clean; exact C.
-      Qed.
-    End AfterStage.
-
-    (* -- the deferred deletions -- *)
-    Section AfterFinish.
-      Variable f3 : fs.
-      Hypothesis D3 : dom_ok f3.
-      Hypothesis L3 : forall p, look f3 p = ren_formP prs look1 p.
-
-      Lemma find_newP_rmd d : In d rmd -> find_newP prs d = None.
-      Proof.
-        intros I. destruct (find_newP prs d) as [[kc s]|] eqn:E; [|reflexivity].
-        apply find_newP_In in E as [Ik E].
-        destruct (rn_rmd _ (RN_ok _ (prs_In _ Ik)) d I) as (_ & B & _).
-        rewrite E in B. unfold newp in B. rewrite prefixb_app in B. discriminate.
       Qed.
 
       Lemma ex_old_rmd d : In d rmd -> ex_old prs d = false.
       Proof.
         intros I. unfold ex_old. destruct (existsb _ prs) eqn:E; [|reflexivity].
         apply existsb_exists in E as (kc & Ik & P).
-        destruct (rn_rmd _ (RN_ok _ (prs_In _ Ik)) d I) as (A & _). unfold oldp in P. congruence.
+        pose proof (rn_rmd _ (RN_ok _ (prs_In _ Ik)) d I) as A. unfold oldp in P. congruence.
       Qed.
 
-      Lemma L3_pdel d : In d (pdel u1) -> look f3 d = Some Dir.
+      Lemma cut_rmd d : In d rmd -> existsb (fun a => prefixb a d) rcp = false.
       Proof.
-        intros I. rewrite L3. unfold ren_formP.
-        rewrite (find_newP_rmd _ (pdel_rmd _ I)), (ex_old_rmd _ (pdel_rmd _ I)). apply L1d; exact I.
+        intros I. apply cut_false. intros a Ia.
+        destruct (prefixb a d) eqn:P; [|reflexivity]. exfalso.
+        assert (tlook old d <> None) as T.
+        { apply rmd_rmp in I. apply in_map_iff in I as (e & <- & Ie).
+          destruct R_facts as (_ & HL & _). rewrite (HL e Ie). discriminate. }
+        pose proof (rc_prefix_old a d Ia P T) as E. subst d.
+        apply rcp_In in Ia as (c & Ic & E). destruct RC_parts as [_ RC].
+        apply (rc_nrm _ (RC c Ic)). rewrite <- E. apply rmd_rmp; exact I.
       Qed.
 
       Lemma deletions_ok :
-        exists f4, rmdirs (rev (pdel u1)) f3 = (f4, None) /\ dom_ok f4 /\
-                   forall p, look f4 p = if mem p (pdel u1) then None else look f3 p.
+        exists f4, rmdirs (rev (pdel u1)) fS = (f4, None) /\ dom_ok f4 /\
+                   forall p, look f4 p = if mem p (pdel u1) then None else look fS p.
       Proof.
         destruct R_facts as (_ & _ & CL).
         rewrite rmdirs_eq.
-        destruct (rmdirs_ok (rev (pdel u1)) f3 D3) as (f4 & E & D4 & L4).
+        destruct (rmdirs_ok (rev (pdel u1)) fS DS) as (f4 & E & D4 & L4).
         - apply NoDup_rev. apply pf_okb_NoDup. apply (p1_pf _ _ _ P1).
-        - intros d I. apply in_rev in I. apply L3_pdel; exact I.
+        - intros d I. apply in_rev in I. pose proof (pdel_rmd _ I) as Ir.
+          rewrite LS_clean by (apply clean_tmp_hd, rmp_clean, rmd_rmp; exact Ir).
+          rewrite (ex_old_rmd _ Ir). unfold cut. rewrite (cut_rmd _ Ir). apply L1d; exact I.
         - intros l1 d l2 EL x s.
           assert (pdel u1 = rev l2 ++ d :: rev l1) as EP.
           { rewrite <- (rev_involutive (pdel u1)), EL, rev_app_distr. simpl.
@@ -627,14 +672,9 @@ Section Exact.
           assert (clean_hd q = true) as CQ.
           { pose proof (rmp_clean _ (rmd_rmp _ Idr)) as C. unfold q.
             destruct d as [|[] r]; simpl in *; congruence. }
-          rewrite L3. unfold ren_formP.
-          destruct (find_newP prs q) as [[kc s']|] eqn:EF.
-          { exfalso. apply find_newP_In in EF as [Ik EQ].
-            destruct (rn_rmd _ (RN_ok _ (prs_In _ Ik)) d Idr) as (_ & B & C).
-            unfold q in EQ. destruct (prefix_comparable _ _ _ _ EQ) as [(t & Et)|(t & Et)].
-            - unfold newp in Et. rewrite Et, prefixb_app in B. discriminate.
-            - unfold newp in Et. rewrite Et, prefixb_app in C. discriminate. }
+          rewrite LS_clean by (apply clean_tmp_hd; exact CQ).
           destruct (ex_old prs q) eqn:EO; [left; reflexivity|].
+          unfold cut. destruct (existsb (fun a => prefixb a q) rcp) eqn:EC; [left; reflexivity|].
           destruct (in_dec (list_eq_dec (fun a b => reflect_dec _ _ (name_eqb_spec a b))) q (pdel u1)) as [Iq|Nq].
           + right. apply in_rev.
             apply (pf_okb_later (rev l2) d (rev l1) q).
@@ -642,10 +682,15 @@ Section Exact.
             * rewrite <- EP. exact Iq.
             * exact SQ.
           + left. rewrite L1 by (auto using clean_ne_mark).
-            destruct (F1 old new q) eqn:EF1; [|reflexivity]. exfalso.
-            assert (In q (g_oldpaths old)) as IO by (apply F1_old; congruence).
+            destruct (mem q rmp) eqn:EM; [reflexivity|].
+            destruct (tlook old q) eqn:T; [|reflexivity]. exfalso.
+            assert (In q (g_oldpaths old)) as IO by (apply tlook_In; congruence).
             destruct (CL d q Idr IO SQ) as [A|A]; [congruence|].
-            unfold F1 in EF1. fold rmp in EF1. rewrite (proj2 (mem_true _ _) A) in EF1. discriminate.
+            apply gone_split in A as [A|A].
+            * apply mem_true in A. congruence.
+            * assert (existsb (fun a => prefixb a q) rcp = true) as C
+                by (apply existsb_exists; exists q; split; [exact A|apply prefixb_refl]).
+              congruence.
         - exists f4. split; [exact E|]. split; [exact D4|].
           intros p. rewrite L4. unfold mem.
           replace (existsb (path_eqb p) (rev (pdel u1))) with (existsb (path_eqb p) (pdel u1)); [reflexivity|].
@@ -655,42 +700,168 @@ Section Exact.
             apply mem_In in E2. apply in_rev in E2. apply mem_In in E2. congruence.
       Qed.
 
-      (* the remote after renames and deletions is the closed form F3 *)
-      Lemma L4_form f4 :
-        (forall p, look f4 p = if mem p (pdel u1) then None else look f3 p) ->
-        (forall p, p <> [NMark] -> look f4 p = F3 old new p) /\ look f4 [NMark] = look f [NMark].
-      Proof.
-        intros L4. split.
-        - intros p NM. rewrite L4. unfold F3. fold prs.
-          destruct (mem p (pdel u1)) eqn:EM.
-          + apply mem_true in EM. pose proof (pdel_rmd _ EM) as Ir.
-            unfold ren_formP. rewrite (find_newP_rmd _ Ir), (ex_old_rmd _ Ir).
-            unfold F1. fold rmp. rewrite (proj2 (mem_true _ _) (rmd_rmp _ Ir)). reflexivity.
-          + apply mem_false in EM. rewrite L3. unfold ren_formP.
+      Section AfterDeletions.
+        Variable f4 : fs.
+        Hypothesis D4 : dom_ok f4.
+        Hypothesis L4 : forall p, look f4 p = if mem p (pdel u1) then None else look fS p.
+
+        (* what the renames are applied to: the old tree without what is gone *)
+        Definition H1 (p : path) : option node :=
+          if mem p (pdel u1) then None else cut rcp look1 p.
+
+        Lemma H1_F1 p : p <> [NMark] -> H1 p = F1 old new p.
+        Proof.
+          intros NM. unfold H1, F1. fold gone.
+          destruct (mem p (pdel u1)) eqn:EP.
+          - apply mem_true in EP. apply pdel_rmd, rmd_rmp in EP.
+            rewrite (proj2 (mem_true _ _)); [reflexivity|]. apply gone_split; left; exact EP.
+          - apply mem_false in EP. unfold cut.
+            destruct (existsb (fun a => prefixb a p) rcp) eqn:EC.
+            + apply existsb_exists in EC as (a & Ia & Pa).
+              destruct (mem p gone) eqn:EG; [reflexivity|].
+              destruct (tlook old p) eqn:T; [|reflexivity]. exfalso.
+              assert (p = a) as -> by (apply (rc_prefix_old a p Ia Pa); congruence).
+              apply mem_false in EG. apply EG. apply gone_split; right; exact Ia.
+            + rewrite L1 by assumption.
+              assert (~ In p rcp) as NR.
+              { intros I. assert (existsb (fun a => prefixb a p) rcp = true) as C
+                  by (apply existsb_exists; exists p; split; [exact I|apply prefixb_refl]). congruence. }
+              destruct (mem p rmp) eqn:EM.
+              * apply mem_true in EM. rewrite (proj2 (mem_true _ _)); [reflexivity|].
+                apply gone_split; left; exact EM.
+              * apply mem_false in EM. rewrite (proj2 (mem_false _ _)); [reflexivity|].
+                intros I. apply gone_split in I as [I|I]; contradiction.
+        Qed.
+
+        Lemma H1_mark : H1 [NMark] = look f [NMark].
+        Proof.
+          unfold H1. rewrite (proj2 (mem_false _ _)) by (apply not_pdel_clean; reflexivity).
+          unfold cut. rewrite cut_false; [apply L1mark|].
+          intros a Ia. apply rcp_clean in Ia. destruct a as [|[] r]; simpl in *; try discriminate; reflexivity.
+        Qed.
+
+        Lemma H1_tmp k s : H1 (Tmp k :: s) = None.
+        Proof.
+          unfold H1. destruct (mem _ _); [reflexivity|]. unfold cut.
+          destruct (existsb _ rcp); [reflexivity|apply TF1].
+        Qed.
+
+        Lemma L4_moved p : look f4 p = moved (map stageP prs) H1 p.
+        Proof.
+          rewrite L4, LS. unfold moved.
+          destruct (find_tgt (map stageP prs) p) as [[m s]|] eqn:EF.
+          - (* a temporary: not a deferred directory *)
+            apply find_tgt_In in EF as [Im EQ]. apply in_map_iff in Im as (kc & <- & Ik).
+            simpl in EQ. subst p.
+            rewrite (proj2 (mem_false _ _)) by (apply not_pdel_clean; reflexivity).
+            unfold src. simpl.
+            assert (cut rcp look1 (oldp kc ++ s) = H1 (oldp kc ++ s)) as EH.
+            { unfold H1. rewrite (proj2 (mem_false _ _)); [reflexivity|].
+              intros Ip. apply pdel_rmd in Ip.
+              pose proof (rn_rmd _ (RN_ok _ (prs_In _ Ik)) _ Ip) as A.
+              unfold oldp in A. rewrite prefixb_app in A. discriminate. }
+            destruct s, (put_of (snd kc)) as [[t x]|]; auto.
+          - destruct (mem p (pdel u1)) eqn:EP.
+            + apply mem_true in EP. unfold H1. rewrite (proj2 (mem_true _ _) EP).
+              destruct (ex_src _ p); reflexivity.
+            + unfold H1. rewrite EP. reflexivity.
+        Qed.
+
+        Lemma L4_clean q : tmp_hd q = false -> look f4 q = if ex_old prs q then None else H1 q.
+        Proof.
+          intros T. rewrite L4_moved. unfold moved. rewrite find_tgt_stg_clean by exact T.
+          rewrite ex_src_stg. reflexivity.
+        Qed.
+
+        Lemma fin_pre : moves_pre (map finP prs) f4.
+        Proof.
+          destruct RN_anti as [AA AB].
+          constructor.
+          - intros m I. apply in_map_iff in I as (kc & <- & I). simpl.
+            pose proof (RN_ok _ (prs_In _ I)) as OK. destruct (prs_clean _ I) as [CO CN].
+            assert (H1 (oldp kc) = Some (enode (c_old (snd kc)))) as LO.
+            { rewrite H1_F1 by (apply clean_ne_mark; exact CO). unfold F1, oldp. fold gone.
+              rewrite (proj2 (mem_false _ _)); [apply (rn_old _ OK)|].
+              intros Ig. apply gone_split in Ig as [Ig|Ig]; [apply (rn_nrm _ OK); exact Ig|].
+              apply rcp_In in Ig as (c & Ic & E). destruct RC_parts as [_ RC].
+              destruct (rc_inc _ (RC c Ic) _ (prs_In _ I)) as [A _].
+              rewrite <- E, prefixb_refl in A. discriminate. }
+            assert (look f4 [Tmp (fst kc)] <> None) as NN.
+            { rewrite L4_moved. unfold moved. rewrite find_tgt_stg_tmp, (find_key _ _ prs_keys I).
+              unfold src. simpl. destruct (put_of (snd kc)) as [[t x]|]; [discriminate|].
+              rewrite app_nil_r, LO. discriminate. }
+            destruct (look f4 [Tmp (fst kc)]) as [nd|]; [|congruence].
+            exists nd. split; [reflexivity|]. intros C; congruence.
+          - rewrite map_map. simpl. apply anti_tmp. apply prs_keys.
+          - rewrite map_map. simpl.
+            replace (map (fun x => newp x) prs) with (map (fun c => epath (c_new c)) (map snd prs))
+              by (rewrite map_map; reflexivity).
+            unfold prs, g_prs. rewrite numbered_snd. exact AB.
+          - intros m m' I I'. apply in_map_iff in I as (kc & <- & I). apply in_map_iff in I' as (kc' & <- & I').
+            simpl. destruct (prs_clean _ I') as [_ CN]. split.
+            + apply tmp_not_under_clean; exact CN.
+            + apply clean_not_under_tmp; exact CN.
+          - intros m s I. apply in_map_iff in I as (kc & <- & I). simpl.
+            pose proof (RN_ok _ (prs_In _ I)) as OK. destruct (prs_clean _ I) as [CO CN].
+            set (q := newp kc ++ s).
+            assert (clean_hd q = true) as CQ.
+            { unfold q. destruct (newp kc) as [|[] r]; simpl in *; congruence. }
+            rewrite L4_clean by (apply clean_tmp_hd; exact CQ).
+            destruct (ex_old prs q) eqn:EO; [reflexivity|].
+            rewrite H1_F1 by (apply clean_ne_mark; exact CQ).
+            destruct (F1 old new q) eqn:EF; [|reflexivity]. exfalso.
+            assert (In q (g_oldpaths old)) as IO by (apply F1_old; congruence).
+            destruct (rn_free _ OK q IO) as [A|A].
+            + unfold q, newp. apply prefixb_app.
+            + congruence.
+            + unfold F1 in EF. fold gone in EF. rewrite (proj2 (mem_true _ _) A) in EF. discriminate.
+          - intros m I. apply in_map_iff in I as (kc & <- & I). simpl.
+            pose proof (RN_ok _ (prs_In _ I)) as OK. destruct (prs_clean _ I) as [CO CN].
+            split.
+            + pose proof (rn_par _ OK) as PP. unfold parent_ok, newp.
+              destruct (parent (epath (c_new (snd kc)))) as [|y q] eqn:EP; [reflexivity|].
+              destruct PP as (PD & PN & PE).
+              assert (clean_hd (y :: q) = true) as CQ by (apply tlook_old_clean; congruence).
+              rewrite L4_clean by (apply clean_tmp_hd; exact CQ). rewrite PE.
+              rewrite H1_F1 by (apply clean_ne_mark; exact CQ).
+              unfold F1. fold gone. rewrite (proj2 (mem_false _ _) PN), PD. reflexivity.
+            + intros m' I'. apply in_map_iff in I' as (kc' & <- & I'). simpl.
+              destruct (clean_parent _ CN) as [E|C].
+              * rewrite E. reflexivity.
+              * apply tmp_not_under_clean; exact C.
+        Qed.
+
+        (* the remote after the rename loop, the deletions and the final renames *)
+        Lemma L5_form f5 :
+          (forall p, look f5 p = moved (map finP prs) (look f4) p) ->
+          (forall p, p <> [NMark] -> look f5 p = F3 old new p) /\ look f5 [NMark] = look f [NMark].
+        Proof.
+          intros L5.
+          assert (forall p, look f5 p = ren_formP prs H1 p) as L5'.
+          { intros p. rewrite L5, (moved_ext _ _ _ L4_moved).
+            apply stage_finish_form; [apply prs_keys|apply prs_clean|apply H1_tmp]. }
+          split.
+          - intros p NM. rewrite L5'. unfold F3. fold prs. unfold ren_formP.
             destruct (find_newP prs p) as [[kc s]|] eqn:EF.
-            * apply find_newP_In in EF as [Ik EQ]. destruct (prs_clean _ Ik) as [CO _].
-              assert (look1 (oldp kc ++ s) = F1 old new (oldp kc ++ s)) as EL.
-              { apply L1.
-                - intros Ip. apply pdel_rmd in Ip.
-                  destruct (rn_rmd _ (RN_ok _ (prs_In _ Ik)) _ Ip) as (A & _).
-                  unfold oldp in A. rewrite prefixb_app in A. discriminate.
-                - apply clean_app_ne_mark; exact CO. }
+            + apply find_newP_In in EF as [Ik EQ]. destruct (prs_clean _ Ik) as [CO _].
+              assert (H1 (oldp kc ++ s) = F1 old new (oldp kc ++ s)) as EL
+                by (apply H1_F1; apply clean_app_ne_mark; exact CO).
               unfold src. simpl. destruct s, (put_of (snd kc)) as [[t x]|]; auto.
-            * destruct (ex_old prs p); [reflexivity|]. apply L1; assumption.
-        - rewrite L4. rewrite (proj2 (mem_false _ _)) by (apply not_pdel_clean; reflexivity).
-          rewrite L3. unfold ren_formP.
-          assert (find_newP prs [NMark] = None) as E1.
-          { destruct (find_newP prs [NMark]) as [[kc s]|] eqn:EF; [|reflexivity].
-            apply find_newP_In in EF as [Ik EQ]. destruct (prs_clean _ Ik) as [_ CN].
-            symmetry in EQ. apply clean_app_ne_mark in EQ; [destruct EQ|exact CN]. }
-          assert (ex_old prs [NMark] = false) as E2.
-          { unfold ex_old. destruct (existsb _ prs) eqn:E; [|reflexivity].
-            apply existsb_exists in E as (kc & Ik & P). destruct (prs_clean _ Ik) as [CO _].
-            apply prefixb_true in P as (s & EQ). symmetry in EQ.
-            apply clean_app_ne_mark in EQ; [destruct EQ|exact CO]. }
-          rewrite E1, E2. apply L1mark.
-      Qed.
-    End AfterFinish.
+            + destruct (ex_old prs p); [reflexivity|]. apply H1_F1; exact NM.
+          - rewrite L5'. unfold ren_formP.
+            assert (find_newP prs [NMark] = None) as E1.
+            { destruct (find_newP prs [NMark]) as [[kc s]|] eqn:EF; [|reflexivity].
+              apply find_newP_In in EF as [Ik EQ]. destruct (prs_clean _ Ik) as [_ CN].
+              symmetry in EQ. apply clean_app_ne_mark in EQ; [destruct EQ|exact CN]. }
+            assert (ex_old prs [NMark] = false) as E2.
+            { unfold ex_old. destruct (existsb _ prs) eqn:E; [|reflexivity].
+              apply existsb_exists in E as (kc & Ik & P). destruct (prs_clean _ Ik) as [CO _].
+              apply prefixb_true in P as (s & EQ). symmetry in EQ.
+              apply clean_app_ne_mark in EQ; [destruct EQ|exact CO]. }
+            rewrite E1, E2. apply H1_mark.
+        Qed.
+      End AfterDeletions.
+    End AfterStage.
   End After1.
 
   (* ----- supports of the closed forms ----- *)
@@ -706,7 +877,7 @@ Section Exact.
     - apply find_newP_In in EF as [Ik ->]. intros H.
       assert (In (oldp kc ++ s) (g_oldpaths old)) as IO.
       { unfold src in H. simpl in H.
-        destruct M_parts as (_ & M & _). destruct (M _ (prs_In _ Ik)) as [A _].
+        destruct M_parts as (_ & M & _). destruct (M _ (proj1 (RNm_RN _ (prs_In _ Ik)))) as [A _].
         destruct s as [|y s].
         - rewrite app_nil_r. exact A.
         - apply F1_old. destruct (put_of (snd kc)) as [[t x]|]; exact H. }
@@ -815,7 +986,7 @@ Section Exact.
                look (ufs u') [NMark] = Some (File [revid] false) /\ dom_ok (ufs u').
   Proof.
     intros D4 A4 M4.
-    destruct G_parts as (_ & _ & _ & _ & _ & GK & GA & GM & _).
+    destruct G_parts as (_ & _ & _ & _ & _ & GK & GA & GM & _ & _).
     destruct M_parts as (_ & _ & MK' & MA & MM).
     (* kind changes *)
     unfold g_kind_changed in GK. apply andb_true_iff in GK as [GK1 GK2].
@@ -826,17 +997,15 @@ Section Exact.
       repeat (apply andb_true_iff in GK2 as [GK2 ?]).
       pose proof (new_clean _ (MK' c I)) as C.
       unfold kc_pre. cbv zeta.
-      destruct (path_eqb_spec (epath (c_old c)) (epath (c_new c))) as [EP|]; [|discriminate].
-      split; [exact EP|]. split; [apply clean_ne_nil; exact C|]. split.
-      - rewrite A4 by (apply clean_ne_mark; exact C). apply onode_eqb_eq; exact H2.
-      - split; [eapply par_ok_transfer; eauto|]. split.
-        + intros ED x s. rewrite ED in H0. rewrite forallb_forall in H0.
-          rewrite A4 by (apply clean_app_ne_mark; exact C).
-          destruct (F3 old new (epath (c_new c) ++ x :: s)) eqn:EF; [|reflexivity].
-          exfalso. assert (In (epath (c_new c) ++ x :: s) (g_univ old new)) as IU by (apply S3; congruence).
-          specialize (H0 _ IU). rewrite EF in H0.
-          rewrite (proj2 (strictb_true _ _)) in H0 by eauto. discriminate.
-        + intros t ET. rewrite ET in H. destruct (parent (epath (c_new c))); [reflexivity|discriminate]. }
+      split; [apply clean_ne_nil; exact C|]. split.
+      - rewrite A4 by (apply clean_ne_mark; exact C). apply onode_eqb_eq; exact GK2.
+      - split; [eapply par_ok_transfer; eauto|].
+        intros ED x s. rewrite ED in H. rewrite forallb_forall in H.
+        rewrite A4 by (apply clean_app_ne_mark; exact C).
+        destruct (F3 old new (epath (c_new c) ++ x :: s)) eqn:EF; [|reflexivity].
+        exfalso. assert (In (epath (c_new c) ++ x :: s) (g_univ old new)) as IU by (apply S3; congruence).
+        specialize (H _ IU). rewrite EF in H.
+        rewrite (proj2 (strictb_true _ _)) in H by eauto. discriminate. }
     destruct (phase_transfer (ufs u4) (ufs u5) (map kc_item KC) (F3 old new) L5 A4) as [A5 M5].
     { intros q I. apply new_clean. exact (kc_items_new KC MK' q I). }
     change (forall q, q <> [NMark] -> look (ufs u5) q = F5 old new q) in A5.
@@ -847,16 +1016,15 @@ Section Exact.
     { intros e I. specialize (GA2 e I). cbv zeta in GA2.
       repeat (apply andb_true_iff in GA2 as [GA2 ?]).
       pose proof (new_clean _ (MA e I)) as C.
-      split; [|split; [apply clean_ne_nil; exact C|split]].
+      split; [|split; [apply clean_ne_nil; exact C|split; [|exact Logic.I]]].
       - rewrite A5 by (apply clean_ne_mark; exact C).
         unfold isNone in GA2. destruct (F5 old new (epath e)); [discriminate|reflexivity].
-      - apply orb_true_iff in H0 as [P|P].
+      - apply orb_true_iff in H as [P|P].
         + left. eapply par_ok_transfer; eauto.
         + right. apply existsb_exists in P as (e' & I' & P). apply andb_true_iff in P as [P1 P2].
           exists e'. split; [exact I'|]. split.
           * destruct (path_eqb_spec (epath e') (parent (epath e))); [assumption|discriminate].
-          * unfold is_dir_entry in P2. destruct (enode e'); congruence.
-      - intros t ET. rewrite ET in H. destruct (parent (epath e)); [reflexivity|discriminate]. }
+          * unfold is_dir_entry in P2. destruct (enode e'); congruence. }
     destruct (phase_transfer (ufs u5) (ufs u6) (map add_item AD) (F5 old new) L6 A5) as [A6 M6].
     { intros q I. apply new_clean. exact (add_items_new AD MA q I). }
     change (forall q, q <> [NMark] -> look (ufs u6) q = F6 old new q) in A6.
@@ -868,10 +1036,11 @@ Section Exact.
     { intros c I. specialize (GM2 c I). cbv zeta in GM2.
       repeat (apply andb_true_iff in GM2 as [GM2 ?]).
       pose proof (new_clean _ (MM c I)) as C.
-      split; [|split].
-      - simpl in GM2. destruct (enode (c_new c)) as [cc x| |]; try discriminate. eauto.
+      split; [|split; [apply clean_ne_nil; exact C|split]].
+      - simpl in GM2. destruct (enode (c_new c)); try discriminate; congruence.
       - rewrite A6 by (apply clean_ne_mark; exact C).
-        destruct (F6 old new (epath (c_new c))) as [[c0 x0| |]|]; try discriminate. eauto.
+        destruct (F6 old new (epath (c_new c))) as [[c0 x0| |t0]|]; try discriminate; eexists; split;
+          try reflexivity; congruence.
       - eapply par_ok_transfer; eauto. }
     destruct (phase_transfer (ufs u6) (ufs u7) (map kc_item MD) (F6 old new) L7 A6) as [A7 M7].
     { intros q I. apply new_clean. exact (kc_items_new MD MM q I). }
@@ -908,30 +1077,27 @@ Section Exact.
       (cmds_kind_changed_noign _ _ IG), (cmds_added_noign _ _ IG), (cmds_modified_noign _ _ IG).
     fold R RN KC AD MD.
     destruct phase1_run as (u1 & E1 & PR1 & NT1 & P1).
-    destruct (moves_simultaneous _ _ (p1_dom _ _ _ P1) (stage_pre u1 P1)) as (fS & ES & DS & LS).
+    destruct (mixed_ok u1 P1) as (fS & ES & DS & LS).
     assert (run (flat_map ren_cmd RN) u1 =
             (mkust fS (pdel u1)
-                   (pren u1 ++ map (fun m => (m_a m, m_b m)) (map finP (numbered (ntmp u1) RN)))
-                   (ntmp u1 + length RN), None)) as E2.
+                   (pren u1 ++ map (fun m => (m_a m, m_b m)) (map finP (numbered (ntmp u1) (moves_of RN))))
+                   (ntmp u1 + length (moves_of RN)), None)) as E2.
     { apply run_stage. rewrite NT1. exact ES. }
     set (u2 := mkust fS _ _ _) in E2.
-    destruct (moves_simultaneous _ _ DS (fin_pre u1 P1 fS LS)) as (f3 & E3 & D3 & L3m).
-    assert (forall p, look f3 p = ren_formP prs (look (ufs u1)) p) as L3.
-    { intros p. rewrite L3m, (moved_ext _ _ _ LS).
-      apply stage_finish_form; [apply prs_keys|apply prs_clean|apply (TF1 u1 P1)]. }
-    assert (exec_cmd FinishRenames u2 = (mkust f3 (pdel u1) [] (ntmp u1 + length RN), None)) as EFR.
-    { apply (exec_FR u2 f3). unfold u2. simpl. rewrite PR1, NT1. simpl.
-      rewrite renames_moves. exact E3. }
-    destruct (deletions_ok u1 P1 f3 D3 L3) as (f4 & E4 & D4 & L4).
-    set (u3 := mkust f3 (pdel u1) [] (ntmp u1 + length RN)) in EFR.
-    assert (exec_cmd FinishDeletions u3 = (mkust f4 [] [] (ntmp u1 + length RN), None)) as EFD.
-    { apply (exec_FD u3 f4). exact E4. }
-    destruct (L4_form u1 P1 f3 L3 f4 L4) as [A4 M4].
-    destruct (tail_run (mkust f4 [] [] (ntmp u1 + length RN)) D4 A4 M4)
+    destruct (deletions_ok u1 P1 fS DS LS) as (f4 & E4 & D4 & L4).
+    assert (exec_cmd FinishDeletions u2 = (mkust f4 [] (pren u2) (ntmp u2), None)) as EFD.
+    { apply (exec_FD u2 f4). exact E4. }
+    destruct (moves_simultaneous _ _ D4 (fin_pre u1 P1 fS LS f4 L4)) as (f5 & E5 & D5 & L5).
+    set (u3 := mkust f4 [] (pren u2) (ntmp u2)) in EFD.
+    assert (exec_cmd FinishRenames u3 = (mkust f5 [] [] (ntmp u2), None)) as EFR.
+    { apply (exec_FR u3 f5). unfold u3, u2. simpl. rewrite PR1, NT1. simpl.
+      rewrite renames_moves. exact E5. }
+    destruct (L5_form u1 P1 fS LS f4 L4 f5 L5) as [A5 M5].
+    destruct (tail_run (mkust f5 [] [] (ntmp u2)) D5 A5 M5)
       as (u' & ET & PD & PR & AN & MN & DN).
     exists u'. split.
     - eapply run_app_ok; [exact E1|]. eapply run_app_ok; [exact E2|].
-      simpl app. eapply run_cons_ok; [exact EFR|]. eapply run_cons_ok; [exact EFD|]. exact ET.
+      simpl app. eapply run_cons_ok; [exact EFD|]. eapply run_cons_ok; [exact EFR|]. exact ET.
     - repeat split; auto.
   Qed.
 End Exact.
